@@ -1,6 +1,8 @@
 package harness
 
 import (
+	"verifrt/simos"
+
 	"fmt"
 	"strings"
 )
@@ -69,8 +71,109 @@ func (t *Truth) firstSeqAtOrAfter(tm int64) int {
 	return t.EndSeq
 }
 
+// genC08Rename: a scale request across a name-width boundary renames the replicas; the
+// previous names are unknown from then on - requests that use them fail and change nothing
+func genC08Rename(r *R, sc *Scenario) {
+	spec := &ProjectSpec{}
+	sc.Project = spec
+	sc.Scripts = map[string]*TokenScript{}
+	n0 := Pick(r, 1, 1, 9)
+	spec.Procs = append(spec.Procs, &ProcSpec{Name: "w", Token: "w.{{.PC_REPLICA_NUM}}", Replicas: n0}, &ProcSpec{Name: "b0", Token: "b0"})
+	life := simos.Script{LifeMs: -1, TermLagMs: Pick(r, 0, 100)}
+	sc.Scripts["w.*"] = &TokenScript{Launches: []simos.Script{life, life, life, life}}
+	sc.Scripts["b0"] = &TokenScript{Launches: []simos.Script{{LifeMs: -1}}}
+	before := ReplicaNames("w", n0)
+	after := ReplicaNames("w", n0+1)
+	ops := []Op{
+		{AtMs: 1000, Op: "scale", Arg: before[0], N: n0 + 1},
+		{AtMs: 2500, Op: Pick(r, "stop", "restart", "start", "stop"), Arg: before[r.Intn(len(before))]},
+		{AtMs: 4500, Op: "scale", Arg: after[0], N: n0},
+		{AtMs: 6000, Op: Pick(r, "stop", "restart", "stop"), Arg: after[r.Intn(n0)]},
+		{AtMs: 8000, Op: "stop", Arg: before[0]},
+	}
+	sc.Clients = []Client{{Name: "rn", Ops: ops}}
+	sc.Strategy = genStrategy(r)
+	sc.Strategy.StallPermille = 0
+	sc.RunForMs = 12000
+	sc.QuietMs = 3000
+	sc.Arm = "rename"
+}
+
+// genC08UpdatePending: a process that is still waiting for its dependency is replaced by a
+// live update; when the dependency has completed the new instance runs, is the one and only
+// instance, and start / stop requests address it
+func genC08UpdatePending(r *R, sc *Scenario) {
+	spec := &ProjectSpec{}
+	sc.Project = spec
+	sc.Scripts = map[string]*TokenScript{}
+	spec.Procs = append(spec.Procs, &ProcSpec{Name: "ud", Token: "ud"}, &ProcSpec{Name: "ua", Token: "ua", DependsOn: map[string]string{"ud": Pick(r, "process_completed", "process_completed_successfully")}})
+	sc.Scripts["ud"] = &TokenScript{Launches: []simos.Script{{LifeMs: Pick(r, 2500, 3500), Exit: 0}}}
+	life := simos.Script{LifeMs: -1, TermLagMs: Pick(r, 0, 10, 100)}
+	sc.Scripts["ua"] = &TokenScript{Launches: []simos.Script{life, life, life, life}}
+	up := cloneSpec(spec)
+	up.Procs[1].Env = append(up.Procs[1].Env, "UPD=1")
+	sc.Updates = []*ProjectSpec{up}
+	ops := []Op{{AtMs: Pick(r, 500, 1000, 1500), Op: Pick(r, "update", "reload"), N: 0}, {AtMs: Pick(r, 4500, 5500), Op: "start", Arg: "ua"}, {AtMs: 7000, Op: "stop", Arg: "ua"}}
+	if r.P(500) {
+		ops = append(ops, Op{AtMs: 8500, Op: "start", Arg: "ua"}, Op{AtMs: 10000, Op: "stop", Arg: "ua"})
+	}
+	sc.Clients = []Client{{Name: "up", Ops: ops}}
+	sc.Strategy = genStrategy(r)
+	sc.Strategy.StallPermille = 0
+	sc.RunForMs = 13000
+	sc.QuietMs = 3000
+	sc.Arm = "updatepending"
+}
+
+// checkC08Rename: which names exist follows the scale requests that succeeded
+func checkC08Rename(sc *Scenario, t *Truth) []Violation {
+	var vs []Violation
+	w := sc.Project.Proc("w")
+	known := map[string]bool{"b0": true}
+	for _, rn := range ReplicaNames("w", w.Replicas) {
+		known[rn] = true
+	}
+	for _, c := range t.Calls {
+		if c.RetSeq < 0 {
+			continue
+		}
+		switch c.Op {
+		case "scale":
+			if c.Err == "" {
+				known = map[string]bool{"b0": true}
+				n := 0
+				if i := strings.LastIndexByte(c.Desc, ','); i >= 0 {
+					fmt.Sscanf(c.Desc[i+1:], "%d", &n)
+				}
+				for _, rn := range ReplicaNames("w", n) {
+					known[rn] = true
+				}
+			}
+		case "start", "stop", "restart":
+			if known[c.Arg] {
+				continue
+			}
+			if c.Err == "" {
+				vs = append(vs, Violation{"C08", "unknown-name-accepted", c.Op, fmt.Sprintf("%s returned success although no process has that name any more (the replicas were renamed by the scale request)", c.Desc), c.RetSeq})
+				continue
+			}
+			for _, in := range t.Insts {
+				for _, k := range in.Kills {
+					if k.Task == c.Task && k.Seq > c.CallSeq && k.Seq < c.RetSeq {
+						vs = append(vs, Violation{"C08", "unknown-name-changed-something", c.Op, fmt.Sprintf("%s failed (%s) - no process has that name any more - but sent signal %d to %s (pid %d)", c.Desc, c.Err, k.Sig, in.Replica, in.Pid), k.Seq})
+					}
+				}
+			}
+		}
+	}
+	return vs
+}
+
 func checkC08(sc *Scenario, t *Truth) []Violation {
 	var vs []Violation
+	if sc.Arm == "rename" {
+		return checkC08Rename(sc, t)
+	}
 	known := map[string]bool{}
 	for _, p := range sc.Project.Procs {
 		for _, rn := range ReplicaNames(p.Name, p.Replicas) {
